@@ -62,6 +62,31 @@ func init() {
 		}
 		return Str{b: bs}
 	}
+	// ByteFrom: a byte constrained to the characters of set (one constraint, no forks)
+	byteFrom := func(e *Exec, set string) Value {
+		v := e.path.newVar(e, "u8", bvSort(8))
+		c := e.tt.Bool(false)
+		for i := 0; i < len(set); i++ {
+			c = e.tt.Or(c, e.tt.Eq(v, e.tt.BV(uint64(set[i]), 8)))
+		}
+		e.assume(c)
+		return Sym{v}
+	}
+	intrinsics[ndPkg+"ByteFrom"] = func(e *Exec, _ *frame, args []Value) Value {
+		return byteFrom(e, e.needStr(args[0], "nd.ByteFrom"))
+	}
+	intrinsics[ndPkg+"StringFrom"] = func(e *Exec, _ *frame, args []Value) Value {
+		n := int(args[0].(int64))
+		set := e.needStr(args[1], "nd.StringFrom")
+		if n == 0 {
+			return Str{}
+		}
+		bs := make([]Value, n)
+		for i := range bs {
+			bs[i] = byteFrom(e, set)
+		}
+		return Str{b: bs}
+	}
 	intrinsics[ndPkg+"Bytes"] = func(e *Exec, _ *frame, args []Value) Value {
 		n := int(args[0].(int64))
 		o := e.newObj(n, "ndbytes")
